@@ -78,6 +78,18 @@ class SeenSet:
                 return True
         return False
 
+    def discard(self, assignment: Dict) -> None:
+        """
+        Remove a constraint that was added before, if it is still there.
+        """
+        if not assignment:
+            self.all_seen = False
+            return
+        if assignment in self.constraints:
+            self.constraints.remove(assignment)
+        if self.keys and all(k in assignment for k in self.keys):
+            self.exact.discard(tuple(assignment[k] for k in self.keys))
+
     def clear(self):
         self.all_seen = False
         self.constraints.clear()
